@@ -9,6 +9,7 @@ import (
 
 type victimRef struct {
 	key, app string
+	forAsk   string // the ask the core says it preempts for (release message), "" when the message names none
 }
 
 func preemptedIn(res *StepResult) []victimRef {
@@ -17,7 +18,11 @@ func preemptedIn(res *StepResult) []victimRef {
 		if r, ok := ev.(*rmevent.RMReleaseAllocationEvent); ok {
 			for _, ra := range r.ReleasedAllocations {
 				if ra.TerminationType == si.TerminationType_PREEMPTED_BY_SCHEDULER {
-					out = append(out, victimRef{ra.AllocationKey, ra.ApplicationID})
+					v := victimRef{key: ra.AllocationKey, app: ra.ApplicationID}
+					if i := strings.LastIndex(ra.Message, "ask: "); i >= 0 {
+						v.forAsk = strings.TrimSpace(ra.Message[i+len("ask: "):])
+					}
+					out = append(out, v)
 				}
 			}
 		}
@@ -77,21 +82,53 @@ func (w *World) oracleC07(pre *Snapshot, op Op, res *StepResult, post *Snapshot)
 		return
 	}
 	w.Tag("preemption-step")
-	// who asked: the ask whose "triggered preemption" flag was raised in this step
-	var asker *AllocSnap
-	askerQueue := ""
-	for id, a := range post.Apps {
-		for key, ask := range a.Asks {
+	// who asked: the asks whose "triggered preemption" flag was raised in this step. One scheduling cycle can preempt for
+	// more than one ask (a daemon set ask does not end the cycle): the victims are then grouped by the ask the release
+	// names.
+	type askRef struct {
+		ask   *AllocSnap
+		queue string
+	}
+	var askers []askRef
+	for _, id := range SortedKeys(post.Apps) {
+		a := post.Apps[id]
+		for _, key := range SortedKeys(a.Asks) {
+			ask := a.Asks[key]
 			if !ask.Triggered {
 				continue
 			}
 			if pa := pre.Apps[id]; pa != nil {
 				if pask := pa.Asks[key]; pask != nil && !pask.Triggered {
-					asker, askerQueue = pask, a.Queue
+					askers = append(askers, askRef{pask, a.Queue})
 				}
 			}
 		}
 	}
+	if len(askers) <= 1 {
+		var asker *AllocSnap
+		q := ""
+		if len(askers) == 1 {
+			asker, q = askers[0].ask, askers[0].queue
+		}
+		w.checkPreemption(pre, op, post, victims, asker, q, c07, c08)
+		return
+	}
+	w.Tag("preemption-two-asks-in-one-cycle")
+	for _, ar := range askers {
+		var group []victimRef
+		for _, v := range victims {
+			if v.forAsk == ar.ask.Key {
+				group = append(group, v)
+			}
+		}
+		if len(group) > 0 {
+			w.checkPreemption(pre, op, post, group, ar.ask, ar.queue, c07, c08)
+		}
+	}
+}
+
+// checkPreemption judges the victims announced for one ask (nil: quota preemption or not attributable).
+func (w *World) checkPreemption(pre *Snapshot, op Op, post *Snapshot, victims []victimRef, asker *AllocSnap, askerQueue string, c07, c08 bool) {
 	kind := "queue"
 	switch {
 	case op.Kind == OpQuotaPre:
@@ -252,6 +289,13 @@ func (w *World) oracleC07(pre *Snapshot, op Op, res *StepResult, post *Snapshot)
 		// victims only from queues above their guaranteed share at the moment each victim is taken
 		taken := map[string]Res{}
 		for _, al := range victimSnaps {
+			for _, p := range PathPrefixes(pre.Apps[al.App].Queue) {
+				if q := pre.Queues[p]; q != nil && q.GuarSet && !q.Preempting.IsZero() {
+					w.Tag("c08-victim-queue-with-guarantee-has-victims-in-flight")
+				}
+			}
+		}
+		for _, al := range victimSnaps {
 			vq := pre.Apps[al.App].Queue
 			// queues on the victim's path below the deepest common ancestor with the asker's queue
 			var side []string
@@ -327,6 +371,8 @@ func (w *World) oracleC07(pre *Snapshot, op Op, res *StepResult, post *Snapshot)
 				for k, m := range q.Max {
 					if q.Allocated[k] > m {
 						over = true
+						// every change of the delay moves a planned start time by the difference: with a delay of an hour or
+						// more in force the start time lies in the future, whatever the delay was before
 						if strings.HasSuffix(q.QuotaPreemptionDelay, "h0m0s") {
 							slow = p + " (" + q.QuotaPreemptionDelay + ")"
 						} else {
